@@ -1799,3 +1799,174 @@ func c05Overwrite(rc *RuleCtx) {
 		rc.good(cons, ins.Pos(), fmt.Sprintf("%d paths to the insert: destination free, released or a symbolic link on each", np))
 	}
 }
+
+func init() {
+	register(&Rule{ID: "C05.mkdirorder", Floor: 1, Also: []string{"C01"},
+		Text: "OrefaFS.MkdirAll collects the missing directories while climbing from the path towards the root (deepest first) and must create them in the opposite order, each inside the one created before it: the loop that creates them walks the collected slice with a decreasing index",
+		Run:  c05MkdirOrder})
+}
+
+func c05MkdirOrder(rc *RuleCtx) {
+	f := rc.C.method("orefafs", "OrefaFS", "MkdirAll")
+	cons := "orefafs.(*OrefaFS).MkdirAll creates outermost first"
+	if f == nil {
+		rc.anchor(cons)
+		return
+	}
+	// the creating call and the index expression its path argument comes from
+	var create ssa.CallInstruction
+	eachCall(f, func(ci ssa.CallInstruction) {
+		if fn := calleeFunc(ci); fn != nil && fn.Name() == "createDir" {
+			create = ci
+		}
+	})
+	if create == nil {
+		rc.anchor("createDir call in orefafs.(*OrefaFS).MkdirAll")
+		return
+	}
+	var idx ssa.Value
+	seen := map[ssa.Value]bool{}
+	var find func(v ssa.Value, d int)
+	find = func(v ssa.Value, d int) {
+		if v == nil || d > 8 || seen[v] || idx != nil {
+			return
+		}
+		seen[v] = true
+		switch x := v.(type) {
+		case *ssa.UnOp:
+			if ia, ok := x.X.(*ssa.IndexAddr); ok {
+				idx = ia.Index
+				return
+			}
+		case *ssa.Index:
+			idx = x.Index
+			return
+		case *ssa.Extract:
+			// range over a slice: (ok, index, value) of Next on a Range — an increasing walk
+			if nx, ok := x.Tuple.(*ssa.Next); ok && !nx.IsString {
+				idx = x
+				return
+			}
+		case *ssa.Phi:
+			for _, e := range x.Edges {
+				find(e, d+1)
+			}
+			return
+		}
+		for _, rv := range resolveRaw(v) {
+			if rv != v {
+				find(rv, d+1)
+			}
+		}
+	}
+	for _, a := range callArgs(create) {
+		if isStringType(a.Type()) {
+			find(a, 0)
+		}
+	}
+	if idx == nil {
+		rc.bad(cons, create.Pos(), "the path of the directory being created does not come out of the collected slice by an index: the order of creation cannot be established")
+		return
+	}
+	// the index is a loop phi: which way does it move?
+	dir := 0
+	if phi, ok := strip(idx).(*ssa.Phi); ok {
+		for _, e := range phi.Edges {
+			if bo, ok := strip(e).(*ssa.BinOp); ok {
+				if k, isC := constInt(bo.Y); isC && k == 1 && strip(bo.X) == ssa.Value(phi) {
+					switch bo.Op {
+					case token.SUB:
+						dir = -1
+					case token.ADD:
+						dir = 1
+					}
+				}
+				if k, isC := constInt(bo.Y); isC && k == -1 && bo.Op == token.ADD && strip(bo.X) == ssa.Value(phi) {
+					dir = -1
+				}
+			}
+		}
+	} else {
+		dir = 1 // a range loop
+	}
+	switch dir {
+	case -1:
+		rc.good(cons, create.Pos(), "the collected paths are consumed from the last (closest to the existing ancestor) to the first")
+	case 1:
+		rc.bad(cons, create.Pos(), "the collected paths are consumed in the order they were collected, deepest first: each directory is created inside the existing ancestor instead of inside its own parent, and the index holds paths that no listing reaches")
+	default:
+		rc.bad(cons, create.Pos(), "cannot tell in which order the collected paths are consumed")
+	}
+}
+
+func init() {
+	register(&Rule{ID: "C03.linkorder", Floor: 1, Also: []string{"C01"},
+		Text: "link(2) looks at the new name before it looks at what kind of object the old name is: MemFS.Link refuses a directory source (EPERM) only after the destination walk (ENOENT / EEXIST) and the write-and-search test on the destination's directory (EACCES) have passed, so that the errno of a call with several things wrong is the kernel's",
+		Run:  c03LinkOrder})
+}
+
+func c03LinkOrder(rc *RuleCtx) {
+	f := rc.C.method("memfs", "MemFS", "Link")
+	cons := "memfs.(*MemFS).Link refuses a directory source last"
+	if f == nil {
+		rc.anchor(cons)
+		return
+	}
+	var walks []*ssa.Call
+	var perm *ssa.Call
+	eachCall(f, func(ci ssa.CallInstruction) {
+		c, ok := ci.(*ssa.Call)
+		if !ok {
+			return
+		}
+		if fn := calleeFunc(c); fn != nil {
+			switch fn.Name() {
+			case "searchNode":
+				walks = append(walks, c)
+			case "checkPermission":
+				perm = c
+			}
+		}
+	})
+	if len(walks) < 2 || perm == nil {
+		rc.anchor("the two walks and the permission test of memfs.(*MemFS).Link")
+		return
+	}
+	sort.Slice(walks, func(i, j int) bool { return walks[i].Pos() < walks[j].Pos() })
+	ei := errResultIndex(f.Signature)
+	n := 0
+	bad := ""
+	for _, r := range returnsOf(f) {
+		isEPERM := false
+		for _, l := range errLeaves(rc.C, r.Results[ei], 0) {
+			if l.name == "avfs.ErrOpNotPermitted" {
+				isEPERM = true
+			}
+		}
+		if !isEPERM {
+			continue
+		}
+		n++
+		if !domInstr(walks[1], r) {
+			bad = "the 'operation not permitted' refusal for a directory source is reachable before the destination has been looked up: link(dir, existing) answers EPERM where the kernel answers EEXIST (ENOENT for a missing directory)"
+		}
+		permPassed := false
+		for _, fa := range factsAt(r.Block()) {
+			c, truth := normCond(fa.Cond, fa.Truth)
+			if c == ssa.Value(perm) && truth {
+				permPassed = true
+			}
+		}
+		if bad == "" && !permPassed {
+			bad = "the 'operation not permitted' refusal for a directory source is reachable before the permission test on the destination's directory: the kernel answers EACCES first"
+		}
+	}
+	switch {
+	case n == 0:
+		rc.bad(cons, f.Pos(), "no return of Link carries 'operation not permitted': a directory can be hard-linked")
+	case bad != "":
+		rc.bad(cons, f.Pos(), bad)
+	default:
+		rc.good(cons, f.Pos(), "EPERM for a directory source is returned only after the destination walk and the permission test passed")
+	}
+}
